@@ -531,12 +531,21 @@ func (e *Env) evalCall(n *ECall) Val {
 		return b(fmt.Sprintf("(= (i_tag %s) %d)", v.Term, e.x.C.typeID(e.x.httpErrPtrType())))
 	case "davErr":
 		return b(fmt.Sprintf("(not (= (asDavErr %s) 0))", arg(0).Term))
+	case "strHostPath":
+		e.x.declFmt()
+		return b(fmt.Sprintf("(strHostPath %s)", arg(0).Term))
+	case "hexOf":
+		e.x.declFmt()
+		return sv(fmt.Sprintf("(hexOf %s)", arg(0).Term))
 	case "asPathErr":
 		t, _ := e.x.resolveType("webdav", "*fs.PathError")
 		return Val{T: t, Term: fmt.Sprintf("(asPathErr %s)", arg(0).Term)}
 	case "osIsExist", "osIsNotExist":
 		return b(fmt.Sprintf("(%s %s)", n.Fun, arg(0).Term))
-	case "isNotExist", "isExist", "isPerm", "isDeadline", "hostPath":
+	case "asLinkErr":
+		t, _ := e.x.resolveType("webdav", "*os.LinkError")
+		return Val{T: t, Term: fmt.Sprintf("(asLinkErr %s)", arg(0).Term)}
+	case "isNotExist", "isExist", "isPerm", "isDeadline", "isNotDir", "hostPath":
 		return b(fmt.Sprintf("(%s %s)", n.Fun, arg(0).Term))
 	case "errText":
 		return sv(fmt.Sprintf("(errText %s)", arg(0).Term))
@@ -602,6 +611,22 @@ func (e *Env) evalCall(n *ECall) Val {
 			e.fail("dynPtr needs a pointer type")
 		}
 		return Val{T: t, Term: fmt.Sprintf("(ite (= (i_tag %s) %d) (i_val %s) 0)", v.Term, e.x.C.typeID(t), v.Term)}
+	case "dynIs", "dynVal":
+		// dynIs(x, "T"): the dynamic type of interface value x is the (non-pointer) type T; dynVal(x, "T"): its value
+		v := arg(0)
+		ts, ok := n.Args[1].(*EStr)
+		if !ok {
+			e.fail("%s(x, \"Type\")", n.Fun)
+		}
+		t, _ := e.x.resolveType(e.pkg, ts.V)
+		if n.Fun == "dynIs" {
+			return b(fmt.Sprintf("(= (i_tag %s) %d)", v.Term, e.x.C.typeID(t)))
+		}
+		if s := e.x.C.sortOf(t); s != "Int" {
+			_, unbox := e.x.C.boxFuncs(s)
+			return Val{T: t, Term: fmt.Sprintf("(%s (i_val %s))", unbox, v.Term)}
+		}
+		return Val{T: t, Term: fmt.Sprintf("(i_val %s)", v.Term)}
 	case "decoded", "decodedOk":
 		// decoded(src, "T"): what a decoder with source src yields for target type T (see decodes)
 		v := arg(0)
